@@ -281,6 +281,32 @@ pub fn mutants(b: &Base, other: &Base, full: bool, rng: &mut Rng, extra_random: 
         push(format!("{}{}", ws, b.token), "whitespace-prepended", "structure", None);
         push(format!("{}{}{}", ws, b.token, ws), "whitespace-around", "structure", None);
     }
+    // 4c'. the wrappings a token travels in ("Bearer <token>", quotes, URL-encoded dots, an upper-cased header, a JSON
+    // string, a trailing ';' or ','): a parser that tolerates them as a convenience accepts strings that are not the token
+    {
+        let t = &b.token;
+        let up_header = match t.find('.').and_then(|i| t[i + 1..].find('.').map(|j| i + 1 + j)) {
+            Some(k) => format!("{}{}", t[..k].to_uppercase(), &t[k..]),
+            None => t.to_uppercase(),
+        };
+        for (wrapped, op) in [
+            (format!("Bearer {}", t), "bearer-prefix"),
+            (format!("bearer {}", t), "bearer-prefix"),
+            (format!("\"{}\"", t), "quoted"),
+            (format!("'{}'", t), "quoted"),
+            (format!("<{}>", t), "quoted"),
+            (t.replace('.', "%2E"), "url-encoded-dots"),
+            (t.replacen('.', "%2e", 1), "url-encoded-dots"),
+            (up_header, "header-upper-cased"),
+            (format!("{};", t), "trailing-separator"),
+            (format!("{},", t), "trailing-separator"),
+            (format!("{}=", t), "trailing-separator"),
+            (format!("token={}", t), "key-value-prefix"),
+            (format!("{}\0", t), "nul-terminated"),
+        ] {
+            push(wrapped, op, "structure", None);
+        }
+    }
     // 4d. extra segments (a fifth, sixth ... segment after the footer / after an empty footer)
     for tail in [".", "..", ".A", "..A", ".AAAA.AAAA", "...."] {
         push(format!("{}{}", b.token, tail), "extra-segments", "structure", None);
@@ -759,4 +785,4 @@ pub fn replay(case: &Value) -> Report {
 /// 900 bytes -> 1200 base64 characters: room for truncations by 256, 512, 768 and 1024 characters
 const LONG_FOOTER: &str = "{\"kid\":\"0123456789abcdefghijklmnopqrstuvwxyzABCDEFGHIJKLMNOPQRSTUVWXYZ0123456789abcdefghijklmnopqrstuvwxyzABCDEFGHIJKLMNOPQRSTUVWXYZ0123456789abcdefghijklmnopqrstuvwxyzABCDEFGHIJKLMNOPQRSTUVWXYZ0123456789abcdefghijklmnopqrstuvwxyzABCDEFGHIJKLMNOPQRSTUVWXYZ0123456789abcdefghijklmnopqrstuvwxyzABCDEFGHIJKLMNOPQRSTUVWXYZ0123456789abcdefghijklmnopqrstuvwxyzABCDEFGHIJKLMNOPQRSTUVWXYZ0123456789abcdefghijklmnopqrstuvwxyzABCDEFGHIJKLMNOPQRSTUVWXYZ0123456789abcdefghijklmnopqrstuvwxyzABCDEFGHIJKLMNOPQRSTUVWXYZ0123456789abcdefghijklmnopqrstuvwxyzABCDEFGHIJKLMNOPQRSTUVWXYZ0123456789abcdefghijklmnopqrstuvwxyzABCDEFGHIJKLMNOPQRSTUVWXYZ0123456789abcdefghijklmnopqrstuvwxyzABCDEFGHIJKLMNOPQRSTUVWXYZ0123456789abcdefghijklmnopqrstuvwxyzABCDEFGHIJKLMNOPQRSTUVWXYZ0123456789abcdefghijklmnopqrstuvwxyzABCDEFGHIJKLMNOPQRSTUVWXYZ0123456789abcdefghijklmnopqrstuvwxyzABCDEFGHIJKLMNOPQRSTUVWXYZ0123456789abcdefghijklmnopqrstuvwxyzABCDEFGHIJKLMNOPQRSTUVWXYZ0123456789\"}";
 
-pub const RULE: &str = "per protocol, authentic base tokens (6 quick / 50 thorough: empty, 1-byte, 20-byte, JSON messages; footer and assertion present/absent) are built with the real library and self-checked; mutants: ALL single-bit flips of the decoded payload, ALL single-character substitutions of the token text over the 64 alphabet characters plus '= + / . space é', every proper prefix, suffix extensions (short, and long ones of 4..65536 characters incl. exact multiples of 256 on the token and on a 1200-character footer segment, with matching long truncations), byte deletion/insertion at the nonce/ciphertext/tag and message/signature boundaries, every position of the payload/footer dot, splices of two authentic tokens, footer swaps (with original and with matching expectation), non-canonical base64 (trailing bits, padding, standard alphabet), ECDSA s/r negation, Ed25519 S+L, seeded random multi-byte edits (thorough: double bit flips in the tag/signature), footer bytes replaced by invalid UTF-8 sequences (incl. every U+FFFD of a footer that contains it); a sample of the mutants is presented a second and a third time (a rejection must stay a rejection). Plus LARGE tokens (5 000, 9 000, 70 000-byte messages; thorough six sizes) with bit flips in the last 300 bytes of the body, in the tag / signature and at 200 random positions. Each mutant is presented to the core entry point (full sweep) and, for JSON bases, to GenericParser and PasetoParser::default() carrying a logging validator. Verdict per call: Ok with other content, Ok outside the two tolerated classes, a UTF-8/JSON/claim error, a validator log entry, a keystream hook event during a rejected call, or a panic is a violation. distinct_nontrivial = distinct (protocol, layer, operator, region) tuples whose mutant passed segment/header/base64 checks and was rejected by the cryptographic check";
+pub const RULE: &str = "per protocol, authentic base tokens (6 quick / 50 thorough: empty, 1-byte, 20-byte, JSON messages; footer and assertion present/absent) are built with the real library and self-checked; mutants: ALL single-bit flips of the decoded payload, ALL single-character substitutions of the token text over the 64 alphabet characters plus '= + / . space é', every proper prefix, suffix extensions (short, and long ones of 4..65536 characters incl. exact multiples of 256 on the token and on a 1200-character footer segment, with matching long truncations), byte deletion/insertion at the nonce/ciphertext/tag and message/signature boundaries, every position of the payload/footer dot, splices of two authentic tokens, footer swaps (with original and with matching expectation), non-canonical base64 (trailing bits, padding, standard alphabet), the wrappings a token travels in ('Bearer ' prefix, quotes, URL-encoded dots, upper-cased header, trailing separators, NUL terminator), ECDSA s/r negation, Ed25519 S+L, seeded random multi-byte edits (thorough: double bit flips in the tag/signature), footer bytes replaced by invalid UTF-8 sequences (incl. every U+FFFD of a footer that contains it); a sample of the mutants is presented a second and a third time (a rejection must stay a rejection). Plus LARGE tokens (5 000, 9 000, 70 000-byte messages; thorough six sizes) with bit flips in the last 300 bytes of the body, in the tag / signature and at 200 random positions. Each mutant is presented to the core entry point (full sweep) and, for JSON bases, to GenericParser and PasetoParser::default() carrying a logging validator. Verdict per call: Ok with other content, Ok outside the two tolerated classes, a UTF-8/JSON/claim error, a validator log entry, a keystream hook event during a rejected call, or a panic is a violation. distinct_nontrivial = distinct (protocol, layer, operator, region) tuples whose mutant passed segment/header/base64 checks and was rejected by the cryptographic check";
